@@ -430,7 +430,7 @@ def check_reject(c, item):
         return term.py_evaluate(st, m.get_parameter_values(), 0.0)
     def via_extension(how):
         # a model that was valid (and already simulated) is extended by a rule / reaction with the bad expression: EVERY later attempt
-        # to build it must be rejected (two simulations and one interface), not only the first
+        # to build it must be rejected (two interfaces, an initialisation, a simulation), not only the first
         def f():
             from bioscrape.simulator import py_simulate_model, ModelCSimInterface
             m = Model(species=list(conf['species']), reactions=[(['A'], [], 'massaction', {'k': 'k_1'})], parameters=plist, initial_condition_dict=ic)
@@ -442,16 +442,16 @@ def check_reject(c, item):
                     m.create_reaction([], ['x2'], 'general', {'rate': text})
             except Exception:
                 raise            # rejected at the edit itself: fine
-            accepted = []
-            for k_, g in enumerate((lambda: py_simulate_model(np.linspace(0, 1, 3), Model=m, stochastic=False, return_dataframe=False).py_get_result()[-1].tolist(),
-                                    lambda: py_simulate_model(np.linspace(0, 1, 3), Model=m, stochastic=True, return_dataframe=False).py_get_result()[-1].tolist(),
-                                    lambda: ModelCSimInterface(m) and 'interface built')):
+            # (the first attempt that is accepted ends the case: simulating a model that carries an undefined name may never return)
+            for k_, g in enumerate((lambda: ModelCSimInterface(m) and 'interface built',
+                                    lambda: ModelCSimInterface(m) and 'second interface built',
+                                    lambda: m.py_initialize() or 'initialised',
+                                    lambda: py_simulate_model(np.linspace(0, 1, 3), Model=m, stochastic=False, return_dataframe=False).py_get_result()[-1].tolist())):
                 try:
-                    accepted.append((k_, g()))
+                    got_ = g()
                 except Exception:
-                    pass
-            if accepted:
-                return 'build attempts %s were accepted: %s' % ([a_[0] for a_ in accepted], accepted[0][1])
+                    continue
+                return 'build attempt %d was accepted: %s' % (k_, got_)
             raise ValueError('every build attempt was rejected')
         return f
     attempt('parse_expression', via_parse)
